@@ -309,4 +309,89 @@ func litestream.(*DB).writeLTXFromWAL(db, ctx, enc, walFile, prevCommit, commit,
   loop 2 invariant enc_last[enc] == (rangeindex == -1 ? 0 : pgnos[rangeindex])
   loop 2 invariant forall p int :: {enc_pages[enc][p]} enc_pages[enc][p] <==> (exists i int :: {pgnos[i]} 0 <= i && i <= rangeindex && pgnos[i] == p)
   ensures [C17.incremental] err == nil ==> (forall p int :: {enc_pages[enc][p]} enc_pages[enc][p] <==> (has(pageMap, p) || (prevCommit < p && p <= commit && p != lockPg(db.pageSize))))
+
+// ---------------------------------------------------------------------------
+// C07 retention. The listing of a level is replFile(client, level, 0..replN-1);
+// listed files are pairwise distinct objects (distinctItems).
+
+pred distinctItems(cl int, lv int) = forall i int, j int :: {replFile(cl, lv, i), replFile(cl, lv, j)} 0 <= i && i < j && j < replN(cl, lv) ==> replFile(cl, lv, i) != replFile(cl, lv, j)
+pred lastSeen(itr int) = it_idx[itr] == 0 ? 0 : item(itr, it_idx[itr] - 1)
+
+func litestream.(*Compactor).EnforceRetentionByTXID(c, ctx, level, txID) (err)
+  requires c != nil && c.client != nil && distinctItems(c.client, level)
+  modifies $heap, $alloc, it_idx
+  at litestream.ReplicaClient.DeleteLTXFiles#1 assert [C07.txid-below] forall i int :: {deleted[i]} 0 <= i && i < len(deleted) ==> deleted[i] != nil && deleted[i].MaxTXID < txID
+  at litestream.ReplicaClient.DeleteLTXFiles#1 assert [C07.txid-listed] forall i int :: {deleted[i]} 0 <= i && i < len(deleted) ==> (exists k int :: {item(itr, k)} 0 <= k && k < it_n[itr] && deleted[i] == item(itr, k))
+  at litestream.ReplicaClient.DeleteLTXFiles#1 assert [C07.txid-keep-last] it_idx[itr] == it_n[itr] && (forall i int :: {deleted[i]} 0 <= i && i < len(deleted) ==> it_n[itr] >= 1 && deleted[i] != item(itr, it_n[itr] - 1))
+  at litestream.ReplicaClient.DeleteLTXFiles#1 assert [C07.txid-enabled] c.RetentionEnabled
+  loop 0 invariant itr != nil && itOK(itr) && it_client[itr] == c.client && it_level[itr] == level && c.client == old(c.client) && lastInfo == lastSeen(itr)
+  loop 0 invariant cap(deleted) == 0 || fresh(arr(deleted))
+  loop 0 invariant len(deleted) <= it_idx[itr]
+  loop 0 invariant forall i int :: {deleted[i]} 0 <= i && i < len(deleted) ==> deleted[i] != nil && deleted[i].MaxTXID < txID && (exists k int :: {item(itr, k)} 0 <= k && k < it_idx[itr] && (i < len(deleted) - 1 ==> k < it_idx[itr] - 1) && deleted[i] == item(itr, k))
+
+func litestream.(*Compactor).EnforceSnapshotRetention(c, ctx, retention) (floor, err)
+  requires c != nil && c.client != nil && distinctItems(c.client, 9)
+  modifies $heap, $alloc, it_idx
+  at litestream.ReplicaClient.DeleteLTXFiles#1 assert [C07.snap-old] forall i int :: {deleted[i]} 0 <= i && i < len(deleted) ==> deleted[i] != nil && deleted[i].CreatedAt < timestamp
+  at litestream.ReplicaClient.DeleteLTXFiles#1 assert [C07.snap-listed] forall i int :: {deleted[i]} 0 <= i && i < len(deleted) ==> (exists k int :: {item(itr, k)} 0 <= k && k < it_n[itr] && deleted[i] == item(itr, k))
+  at litestream.ReplicaClient.DeleteLTXFiles#1 assert [C07.snap-keep-newest] it_idx[itr] == it_n[itr] && (forall i int :: {deleted[i]} 0 <= i && i < len(deleted) ==> it_n[itr] >= 1 && deleted[i] != item(itr, it_n[itr] - 1))
+  at litestream.ReplicaClient.DeleteLTXFiles#1 assert [C07.snap-enabled] c.RetentionEnabled
+  at litestream.ReplicaClient.DeleteLTXFiles#1 assert [C07.snap-floor] minSnapshotTXID != 0 ==> (exists k int :: {item(itr, k)} 0 <= k && k < it_n[itr] && minSnapshotTXID == fmax(item(itr, k)) && fcreated(item(itr, k)) >= timestamp)
+  loop 0 invariant itr != nil && itOK(itr) && it_client[itr] == c.client && it_level[itr] == 9 && c.client == old(c.client) && lastInfo == lastSeen(itr)
+  loop 0 invariant cap(deleted) == 0 || fresh(arr(deleted))
+  loop 0 invariant len(deleted) <= it_idx[itr]
+  loop 0 invariant forall i int :: {deleted[i]} 0 <= i && i < len(deleted) ==> deleted[i] != nil && deleted[i].CreatedAt < timestamp && (exists k int :: {item(itr, k)} 0 <= k && k < it_idx[itr] && (i < len(deleted) - 1 ==> k < it_idx[itr] - 1) && deleted[i] == item(itr, k))
+  loop 0 invariant minSnapshotTXID != 0 ==> (exists k int :: {item(itr, k)} 0 <= k && k < it_idx[itr] && minSnapshotTXID == fmax(item(itr, k)) && fcreated(item(itr, k)) >= timestamp)
+
+func litestream.(*DB).EnforceSnapshotRetention(db, ctx, timestamp) (minSnapshotTXID, err)
+  requires db != nil && db.Replica != nil && db.Replica.Client != nil && distinctItems(db.Replica.Client, 9)
+  modifies $heap, $alloc, it_idx
+  at litestream.ReplicaClient.DeleteLTXFiles#1 assert [C07.snap-old] forall i int :: {deleted[i]} 0 <= i && i < len(deleted) ==> deleted[i] != nil && deleted[i].CreatedAt < timestamp
+  at litestream.ReplicaClient.DeleteLTXFiles#1 assert [C07.snap-listed] forall i int :: {deleted[i]} 0 <= i && i < len(deleted) ==> (exists k int :: {item(itr, k)} 0 <= k && k < it_n[itr] && deleted[i] == item(itr, k))
+  at litestream.ReplicaClient.DeleteLTXFiles#1 assert [C07.snap-keep-newest] it_idx[itr] == it_n[itr] && (forall i int :: {deleted[i]} 0 <= i && i < len(deleted) ==> it_n[itr] >= 1 && deleted[i] != item(itr, it_n[itr] - 1))
+  at litestream.ReplicaClient.DeleteLTXFiles#1 assert [C07.snap-enabled] db.RetentionEnabled
+  ensures [C07.snap-floor] err == nil && minSnapshotTXID != 0 ==> (exists k int :: {item(itr, k)} 0 <= k && k < it_n[itr] && minSnapshotTXID == fmax(item(itr, k)))
+  loop 0 invariant itr != nil && itOK(itr) && it_client[itr] == db.Replica.Client && it_level[itr] == 9 && db.Replica == old(db.Replica) && db.Replica.Client == old(db.Replica.Client) && lastInfo == lastSeen(itr)
+  loop 0 invariant (cap(deleted) == 0 || fresh(arr(deleted))) && (cap(snapshots) == 0 || fresh(arr(snapshots))) && (cap(deleted) == 0 || cap(snapshots) == 0 || arr(deleted) != arr(snapshots))
+  loop 0 invariant len(deleted) <= it_idx[itr] && len(snapshots) == it_idx[itr]
+  loop 0 invariant forall k int :: {snapshots[k]} 0 <= k && k < len(snapshots) ==> snapshots[k] == item(itr, k)
+  loop 0 invariant forall i int :: {deleted[i]} 0 <= i && i < len(deleted) ==> deleted[i] != nil && deleted[i].CreatedAt < timestamp && (exists k int :: {item(itr, k)} 0 <= k && k < it_idx[itr] && (i < len(deleted) - 1 ==> k < it_idx[itr] - 1) && deleted[i] == item(itr, k))
+  loop 1 invariant rangeindex < len(snapshots) && minSnapshotTXID == 0
+
+func litestream.(*Compactor).EnforceL0Retention(c, ctx, retention) (err)
+  requires c != nil && c.client != nil && distinctItems(c.client, 0)
+  requires forall i int, j int :: {replFile(c.client, 0, i), replFile(c.client, 0, j)} 0 <= i && i < j && j < replN(c.client, 0) ==> fmax(replFile(c.client, 0, i)) <= fmax(replFile(c.client, 0, j))   // L0 listing sorted by TXID
+  modifies $heap, $alloc, it_idx
+  at litestream.ReplicaClient.DeleteLTXFiles#1 assert [C07.l0-covered] maxL1TXID != 0 && (forall i int :: {deleted[i]} 0 <= i && i < len(deleted) ==> deleted[i] != nil && deleted[i].MaxTXID <= maxL1TXID)
+  at litestream.ReplicaClient.DeleteLTXFiles#1 assert [C07.l0-l1-exists] exists k int :: {replFile(c.client, 1, k)} 0 <= k && k < replN(c.client, 1) && maxL1TXID == fmax(replFile(c.client, 1, k))
+  at litestream.ReplicaClient.DeleteLTXFiles#1 assert [C07.l0-prefix] len(deleted) <= it_n[itr] && (forall i int :: {deleted[i]} 0 <= i && i < len(deleted) ==> deleted[i] == item(itr, i))
+  at litestream.ReplicaClient.DeleteLTXFiles#1 assert [C07.l0-keep-newest] len(deleted) < it_n[itr]
+  at litestream.ReplicaClient.DeleteLTXFiles#1 assert [C07.l0-old] forall i int :: {deleted[i]} 0 <= i && i < len(deleted) ==> deleted[i].CreatedAt == 0 || deleted[i].CreatedAt <= threshold
+  at litestream.ReplicaClient.DeleteLTXFiles#1 assert [C07.l0-enabled] c.RetentionEnabled
+  loop 0 invariant itr != nil && itOK(itr) && it_client[itr] == c.client && it_level[itr] == 1 && c.client == old(c.client)
+  loop 0 invariant maxL1TXID == 0 || (exists k int :: {replFile(c.client, 1, k)} 0 <= k && k < it_idx[itr] && maxL1TXID == fmax(replFile(c.client, 1, k)))
+  loop 1 invariant itr != nil && itOK(itr) && it_client[itr] == c.client && it_level[itr] == 0 && c.client == old(c.client) && lastInfo == lastSeen(itr) && processedAll && maxL1TXID != 0
+  loop 1 invariant exists k int :: {replFile(c.client, 1, k)} 0 <= k && k < replN(c.client, 1) && maxL1TXID == fmax(replFile(c.client, 1, k))
+  loop 1 invariant cap(deleted) == 0 || fresh(arr(deleted))
+  loop 1 invariant len(deleted) <= it_idx[itr] && (len(deleted) == it_idx[itr] || fmax(item(itr, len(deleted))) > maxL1TXID)
+  loop 1 invariant forall i int :: {deleted[i]} 0 <= i && i < len(deleted) ==> deleted[i] != nil && deleted[i] == item(itr, i) && deleted[i].MaxTXID <= maxL1TXID && (deleted[i].CreatedAt == 0 || deleted[i].CreatedAt <= threshold)
+
+func litestream.(*DB).EnforceL0RetentionByTime(db, ctx) (err)
+  requires db != nil && db.Replica != nil && db.Replica.Client != nil && distinctItems(db.Replica.Client, 0)
+  requires forall i int, j int :: {replFile(db.Replica.Client, 0, i), replFile(db.Replica.Client, 0, j)} 0 <= i && i < j && j < replN(db.Replica.Client, 0) ==> fmax(replFile(db.Replica.Client, 0, i)) <= fmax(replFile(db.Replica.Client, 0, j))   // L0 listing sorted by TXID
+  modifies $heap, $alloc, it_idx
+  at litestream.ReplicaClient.DeleteLTXFiles#1 assert [C07.l0-covered] maxL1TXID != 0 && (forall i int :: {deleted[i]} 0 <= i && i < len(deleted) ==> deleted[i] != nil && deleted[i].MaxTXID <= maxL1TXID)
+  at litestream.ReplicaClient.DeleteLTXFiles#1 assert [C07.l0-l1-exists] exists k int :: {replFile(db.Replica.Client, 1, k)} 0 <= k && k < replN(db.Replica.Client, 1) && maxL1TXID == fmax(replFile(db.Replica.Client, 1, k))
+  at litestream.ReplicaClient.DeleteLTXFiles#1 assert [C07.l0-prefix] len(deleted) <= it_n[itr] && (forall i int :: {deleted[i]} 0 <= i && i < len(deleted) ==> deleted[i] == item(itr, i))
+  at litestream.ReplicaClient.DeleteLTXFiles#1 assert [C07.l0-keep-newest] len(deleted) < it_n[itr]
+  at litestream.ReplicaClient.DeleteLTXFiles#1 assert [C07.l0-old] forall i int :: {deleted[i]} 0 <= i && i < len(deleted) ==> deleted[i].CreatedAt == 0 || deleted[i].CreatedAt <= threshold
+  at litestream.ReplicaClient.DeleteLTXFiles#1 assert [C07.l0-enabled] db.RetentionEnabled
+  loop 0 invariant itr != nil && itOK(itr) && it_client[itr] == db.Replica.Client && it_level[itr] == 1 && db.Replica == old(db.Replica) && db.Replica.Client == old(db.Replica.Client)
+  loop 0 invariant maxL1TXID == 0 || (exists k int :: {replFile(db.Replica.Client, 1, k)} 0 <= k && k < it_idx[itr] && maxL1TXID == fmax(replFile(db.Replica.Client, 1, k)))
+  loop 1 invariant itr != nil && itOK(itr) && it_client[itr] == db.Replica.Client && it_level[itr] == 0 && db.Replica == old(db.Replica) && db.Replica.Client == old(db.Replica.Client) && lastInfo == lastSeen(itr) && processedAll && maxL1TXID != 0
+  loop 1 invariant exists k int :: {replFile(db.Replica.Client, 1, k)} 0 <= k && k < replN(db.Replica.Client, 1) && maxL1TXID == fmax(replFile(db.Replica.Client, 1, k))
+  loop 1 invariant cap(deleted) == 0 || fresh(arr(deleted))
+  loop 1 invariant len(deleted) <= it_idx[itr] && (len(deleted) == it_idx[itr] || fmax(item(itr, len(deleted))) > maxL1TXID)
+  loop 1 invariant forall i int :: {deleted[i]} 0 <= i && i < len(deleted) ==> deleted[i] != nil && deleted[i] == item(itr, i) && deleted[i].MaxTXID <= maxL1TXID && (deleted[i].CreatedAt == 0 || deleted[i].CreatedAt <= threshold)
+  loop 2 invariant itr != nil && itOK(itr) && it_client[itr] == db.Replica.Client && it_level[itr] == 0 && !processedAll && len(deleted) < it_idx[itr]
 */
